@@ -4,6 +4,8 @@ from operator import gt, lt
 
 import numpy as np
 
+from bycycle.utils.checks import check_sig_dtype
+
 ###################################################################################################
 ###################################################################################################
 
@@ -50,6 +52,9 @@ def find_zerox(sig, peaks, troughs):
     >>> peaks, troughs = find_extrema(sig, fs, f_range=(8, 12))
     >>> rises, decays = find_zerox(sig, peaks, troughs)
     """
+
+    # Integer typed signals are analyzed as floats
+    sig = check_sig_dtype(sig)
 
     # Calculate the number of rises and decays
     n_rises = len(peaks)
